@@ -54,6 +54,7 @@ def importG (base : State) (g : Genesis) : Option State :=
     else
       let os : OState := { params := g.oparams, round := none, prevotes := g.prevotes, votes := g.votes, miss := g.miss, feeders := g.feeders }
       let s : State := { base with st := st2, os := os }
-      some { s with os := { s.os with round := some (nextRoundInfo s) } }
+      -- the description of the first block to be processed: the block at `base.h` itself (InitChain of an export runs at that height)
+      some { s with os := { s.os with round := some (nextRoundInfo { s with h := s.h - 1 }) } }
 
 end Settlus
